@@ -1039,6 +1039,34 @@ def _run_rest(chk, fx):
         if f.get("body") and f["n"] == "write" and (f.get("cls") or "").endswith("EclOutput") and os.path.basename(f["file"]) in ("EclOutput.cpp", "EclOutput.hpp"):
             hdr_walk(stmt_list(f["body"]), None, f)
 
+    # ---- C07.c0nn: the three-digit element width of a C0nn type string
+    r_cw = chk.rule("C07.c0nn", "the type string of a long-string array is 'C' followed by the element width as THREE zero-filled digits: both header writers print setw(3) / setfill('0') after the 'C', and both header readers (readBinaryHeader, readFormattedHeader) parse the width from the three characters after the first (substr(1, 3)); a reader that takes fewer digits sizes the records of every array of width 100 or more wrongly and loses the rest of the file", floor=4)
+    for rn in ("readBinaryHeader", "readFormattedHeader"):
+        rf = [f for f in fx.fns if f["n"] == rn and f.get("body") and f["file"].endswith("EclUtil.cpp") and any(x.get("k") == "Call" and (x.get("fn") or "").endswith("stoi") for x in walk(f["body"]))]
+        if len(rf) != 1:
+            raise core.AnalysisBroken("%s: %d definitions" % (rn, len(rf)))
+        rf = rf[0]
+        got_w = []
+        for n in walk(rf["body"]):
+            if n.get("k") == "Bin" and n.get("asg") and n.get("op") == "=" and any((x.get("fn") or "").endswith("stoi") for x in walk(n["c"][1]) if x.get("k") == "Call"):
+                for x in walk(n["c"][1]):
+                    if x.get("k") == "MCall" and x.get("m") == "substr":
+                        got_w.append(tuple(show(strip(a_)) for a_ in x.get("a") or []))
+        chk.instance(r_cw, rn, sample=dict(width_from=got_w))
+        if got_w != [("1", "3")]:
+            chk.violation(r_cw, rn, "%s parses the C0nn element width from substr%s; the width is the three digits after the 'C' (substr(1, 3)), as the writers print it" % (rn, got_w), rf["file"], rf["l"])
+    fo_c = chk.facts(["opm/io/eclipse/EclOutput.cpp"])
+    for wn in ("writeBinaryHeader", "writeFormattedHeader"):
+        wf = [f for f in fo_c.fns if f["n"] == wn and f.get("body") and f["file"].endswith("EclOutput.cpp")]
+        if len(wf) != 1:
+            raise core.AnalysisBroken("%s: %d definitions" % (wn, len(wf)))
+        wf = wf[0]
+        txt = " ".join(show(x) for x in walk(wf["body"]) if x.get("k") in ("OpCall", "Call") and "setw" in show(x) and "\"C\"" in show(x))
+        okw = re.search(r'"C"\)?, std::setw\(3\)\)?, std::setfill\(\'0\'\)\)?, element_size\)|"C"\) << std::setw\(3\)\) << std::setfill\(\'0\'\)\) << element_size', txt) is not None or ('"C"' in txt and "std::setw(3)" in txt and "std::setfill('0')" in txt)
+        chk.instance(r_cw, wn, sample=dict(format=txt[:160]))
+        if not okw:
+            chk.violation(r_cw, wn, "%s no longer prints the C0nn width as 'C' + setw(3) + setfill('0') (%s)" % (wn, txt[:160]), wf["file"], wf["l"])
+
     # ---- C07.realparse: text -> float without a range exception
     r_rp = chk.rule("C07.realparse", "the formatted readers of opm/io/eclipse convert a REAL token with a function that cannot raise a range error for text the writer produces: std::stod followed by narrowing, or strtof / strtod (which return a value and do not throw).  std::stof throws std::out_of_range for every subnormal float (and for values beyond FLT_MAX), which `%e` output of a float array contains legally", floor=8)
     rpx = chk.facts([u for u in core.library_units() if "opm/io/eclipse/" in u])
